@@ -489,3 +489,57 @@ Example C07_ex_vendor_carries_template :
      = [Elem (qn NS_NXOS s_exec_command) [] [Elem (qn NS_NXOS s_cmd) [] [Text (lit "show version"%string)]; Elem (qn NS_NXOS s_cmd) [] [Text (lit "a<b"%string)]]]
   /\ vvalues (VJCommit true (TInt 125) (Some (lit "why"%string)) true None true) = [VStr (lit "3"%string); VStr (lit "why"%string)].
 Proof. vm_compute. repeat split; reflexivity. Qed.
+
+(* ---------------- the device profiles' hook on the finished request (transform_edit_config) ----------------
+   Model/Builders.v models the hook as the code has it: a function on the whole <edit-config> element, called after the
+   builder finished it (iosxe: the DIRECT children named config in no namespace; if there is exactly one, it moves to the base
+   namespace; the 13 other profiles: identity). *)
+
+(* The hook, on ANY tree: the element's name and attributes, the number and order of its children are kept; each child is either
+   untouched or an un-namespaced <config> turned into {base}config with the same attributes and the same content - so nothing
+   below a direct child is ever altered, whatever it is named (config, filter, source, rpc ... qualified or not); with no such
+   child or with several nothing changes; without the iosxe flag nothing changes. *)
+Theorem C07_hook_frame : forall p q a cs,
+  exists cs', transform_edit_config p (Elem q a cs) = Elem q a cs' /\ Forall2 hook_child cs cs'
+    /\ (length (filter is_bare_config cs) <> 1%nat -> cs' = cs)
+    /\ (p_iosxe p = false -> cs' = cs).
+Proof. exact c07_hook_frame. Qed.
+Print Assumptions C07_hook_frame.
+
+(* The hook on the requests edit_config builds, ALL argument records: the request is the one the same call gives under the
+   profile without the hook, except that the element the caller handed in as config (at most one node, the last child) went
+   through [iosxe_patch] - its root name only.  (C07_carries states the same through the template: hole TFrag XIosxe.) *)
+Theorem C07_hook_root_only : forall p tgt dop top eop cfg op,
+  op_node p (OEditConfig tgt dop top eop cfg) = POk op ->
+  exists pre c, cfg_nodes cfg = POk c /\ (length c <= 1)%nat
+    /\ op_node {| p_ns := p_ns p; p_iosxe := false |} (OEditConfig tgt dop top eop cfg) = POk (Elem (b_ s_edit_config) [] (pre ++ c))
+    /\ op = Elem (b_ s_edit_config) [] (pre ++ map (iosxe_patch p) c).
+Proof. exact c07_hook_root_only. Qed.
+Print Assumptions C07_hook_root_only.
+
+Definition P_iosxe := {| p_ns := Prefixed; p_iosxe := true |}.
+(* caller data full of elements named like envelope elements: config / filter / source / rpc, un-namespaced, in the base
+   namespace and in a foreign one, nested three deep, with an attribute and text *)
+Definition ex_envnames (root : qname) : tree :=
+  Elem root [(a_ s_type, lit "x"%string)]
+    [Elem (a_ s_config) []
+       [Elem (b_ s_config) [] [Elem (q_ "urn:x" "config") [] [Text (lit "1<2"%string)]]; Elem (a_ s_config) [] []; Elem (a_ s_rpc) [] []];
+     Elem (a_ s_filter) [] [Elem (a_ s_source) [] [Elem (a_ s_config) [(a_ s_select, lit "/config"%string)] []]];
+     Elem (a_ s_config) [] [Text (lit "flash:x"%string)]].
+Definition ex_edit_cfg (t : tree) : opcall := OEditConfig (DsStr (lit "running"%string) true) None None None (CfgXml t).
+
+Example C07_ex_hook :
+  (* through a call: the un-namespaced root is patched, every nested element stays what the caller wrote *)
+  build P_iosxe (lit "m1"%string) (ex_edit_cfg (ex_envnames (a_ s_config)))
+    = build P_default (lit "m1"%string) (ex_edit_cfg (ex_envnames (b_ s_config)))
+  /\ build P_iosxe (lit "m1"%string) (ex_edit_cfg (ex_envnames (a_ s_config)))
+      <> build P_default (lit "m1"%string) (ex_edit_cfg (ex_envnames (a_ s_config)))
+  (* a root the caller qualified: the hook does nothing, the nested un-namespaced <config> elements stay un-namespaced *)
+  /\ build P_iosxe (lit "m1"%string) (ex_edit_cfg (ex_envnames (b_ s_config)))
+      = build P_default (lit "m1"%string) (ex_edit_cfg (ex_envnames (b_ s_config)))
+  (* the hook itself: two un-namespaced <config> children - nothing changes; exactly one among other children - that one only *)
+  /\ (let n := Elem (b_ s_edit_config) [] [ex_envnames (a_ s_config); ex_envnames (a_ s_config)] in iosxe_transform n = n)
+  /\ iosxe_transform (Elem (b_ s_edit_config) [] [ex_envnames (b_ s_config); Text (lit "t"%string); ex_envnames (a_ s_config); ex_envnames (a_ s_filter)])
+      = Elem (b_ s_edit_config) [] [ex_envnames (b_ s_config); Text (lit "t"%string); ex_envnames (b_ s_config); ex_envnames (a_ s_filter)]
+  /\ (let n := Elem (a_ s_config) [] [Elem (a_ s_filter) [] [ex_envnames (a_ s_config)]] in iosxe_transform n = n).
+Proof. vm_compute. repeat split; try reflexivity. discriminate. Qed.
